@@ -5,7 +5,7 @@ characters `\ LF TAB CR BEL | ; = ,` are written `\\ \n \t \r \a \p \s \e \c`.
 
 * `find <s>`                                  → `none` or `<pre> TAB <msg> TAB <post>`   (bannerRe)
 * `strip <fixedIgnored> <active> <out> <pend>` → `<ok|abort…> TAB <out'> TAB <need> TAB <pend'>`  (stripReloadBanner)
-* `dialog <fixed> <changes |> <behavs |> <specials |>` →
+* `dialog <fixed> <noAsk> <changes |> <behavs |> <specials |>` →   (noAsk: device does not ask `Save? [yes/no]`)
       `R=<result> TAB T=<lines |> TAB W=<cmd,line |> TAB G=<guardOK>,<pendingAfter>,<rearms>,<changes>
        TAB H=<Chg.cleanB of all>,<Chg.noProbeFirstB of all>,<specOk>` (hypotheses of the banner theorems)
   behav = `<form>,<msg>,<out>` with form `N`, `A<pad>`, `B<off>`, `C<pad>`, `D`;
@@ -98,12 +98,12 @@ def answer (line : String) : String :=
     match stripReloadBanner (σ := Unit) (un out) st with
     | (.ok (o, need), st') => s!"ok\t{esc o}\t{b2s need}\t{esc st'.pend}"
     | (.abort e, st') => s!"abort:{showAbort e}\t\t0\t{esc st'.pend}"
-  | ["dialog", fx, cs, bs, sp] =>
+  | ["dialog", fx, na, cs, bs, sp] =>
     match (splitList bs "|").mapM parseBehav, (splitList sp "|").mapM parseSpecial with
     | some behavs, some specials =>
       let changes := (splitList cs "|").map un
       let st : St SimSt := { dev := { queue := behavs } }
-      let (r, st') := applyCommands (simDevice specials) (fx == "1") changes st
+      let (r, st') := applyCommands (simDevice specials (na == "1")) (fx == "1") changes st
       let ls := linesOf st'.trace
       let g := Guard.run ls
       let ws := "|".intercalate (st'.warns.map fun (c, l) => esc c ++ "," ++ esc l)
